@@ -17,7 +17,7 @@ CHECKS = {
          "GC-heavy histories (capacity 1..3, retain / clear / never_garbage_collect, intern_ref re-interning) against a root model: the closure of retained + LRU roots is served without re-execution, live handles read their original values, no pico panic; selected histories are replayed under Miri (use-after-free, uninitialised reads). 60k native + 8 Miri histories quick, 1.2M + 200 thorough.",
          "Lookups / retains only for handles with a stated contract (obtained after the last write from a GC root closure); Miri runs Stacked Borrows with isolation disabled and leaks ignored; the open finding intern-ref-pointer-outlives-owner is tolerated by signature and excluded by construction.", "5/C03"),
  "C04": ("exploration", "property-based testing over a seed-generated Rust program with many same-signature #[memo] functions (compiled per seed) + exhaustive syn scan of the repository's #[memo] signatures",
-         "A generated program of 30-60 modules whose #[memo] functions repeat textually identical signatures; generated call sequences interleaved with writes must return each function's own value; plus an enumeration of all #[memo] signatures under /repo/crates for duplicate keys. 4k sequences over 1 program quick, 200k over 8 programs thorough.",
+         "A generated program of 30-60 modules whose #[memo] functions repeat textually identical signatures; generated call sequences interleaved with writes (including garbage collection and a paired write that re-executes a function with an unchanged result, i.e. backdating) must return each function's own value and never panic; plus an enumeration of all #[memo] signatures under /repo/crates for duplicate keys. 40k sequences over 1 program quick, 1M over 8 programs thorough.",
          "One compile per seed; duplicates in test programs that use separate databases are labelled, not failed.", "5/C04"),
  "C05": ("exploration", "model-based property testing (proptest) + shuttle random/PCT schedule sampling over feature-gated sync shims + Miri many-seeds",
          "Reference model of every intern table (id equality <=> value equality, lookup round trip, dense stable indices, order = text order, WithIntern serde round trips through bincode and serde_json) on 20k sequential + 4k serde cases; 5.4k shuttle executions (random + PCT depth 2/3) of 2-3 threads interning overlapping new values through the shims; 6 Miri seeds on real-thread programs (quick). Sampling of schedules, not all interleavings.",
@@ -47,7 +47,7 @@ CHECKS = {
          "Accepted generated programs (hostile descriptions and strings, the whole option space) and the four checked-in projects: every .ts artifact parses as a TypeScript module without any (recovered) error, every .json parses, every relative import inside the artifact directory names a generated file, imports leaving it name an existing source file. 24k programs quick, 400k thorough.",
          "swc_ecma_parser 3 is the reference for 'parses as TypeScript'; programs the compiler rejects or crashes on are skipped (counted).", "5/C13"),
  "C14": ("exploration", "metamorphic property-based testing: same files, fresh processes (fresh hash seeds), opposite creation order + decoy files; byte equality of artifact trees and diagnostics",
-         "Generated valid projects, multi-fault invalid projects (several diagnostics) and the four checked-in projects are each compiled three times by fresh CLI processes in two layouts; artifact trees and normalised stderr must be identical. 400 generated projects quick, 12k thorough.",
+         "Generated valid projects, multi-fault invalid projects (several diagnostics) and the four checked-in projects are each compiled three times by fresh CLI processes in two layouts; artifact trees and normalised stderr must be identical. 400 generated projects quick, 12k thorough. Second leg: 60k (1M thorough) generated projects, three in four from a refetch-dense preset, are compiled twice in-process (fresh RandomState keys per compilation) as a candidate search for hash-order dependence; a candidate is reported only when fresh CLI processes reproduce a difference (up to 9 runs).",
          "tmpfs enumeration order depends on creation order (that is what varies discovery order); timing phrases and the scratch directory name are removed from stderr; cases on which the compiler crashes are skipped (C08).", "5/C14"),
  "C15": ("exploration", "metamorphic property-based testing over pairs of generated projects (permute selection sets / repeat a selection under another alias / extract part of a selection set into a fresh client field with variables threaded through)",
          "For every entrypoint the multiset of (cooked operation text, normalization AST) pairs - entrypoint query plus refetch queries - must be identical in P and its variant (the extraction variant also binds several fresh inner variables to one outer value). 24k pairs quick, 240k thorough.",
